@@ -1827,10 +1827,12 @@ macro_rules! vec_impl_vec {
         // NOTE: Be careful to only drop elements that weren't yielded.
         impl<T> Drop for IntoIter<T> {
             fn drop(&mut self) {
-                for elem in &mut self.vector[self.start .. self.end] {
-                    unsafe {
-                        ManuallyDrop::drop(elem);
-                    }
+                // NOTE: drop_in_place() on the slice, rather than a loop, so that the remaining
+                // elements are still dropped if the destructor of one of them panics (as for arrays and Vec).
+                let live: *mut [ManuallyDrop<T>] = &mut self.vector[self.start .. self.end];
+                unsafe {
+                    // ManuallyDrop<T> is #[repr(transparent)].
+                    ptr::drop_in_place(live as *mut [T]);
                 }
             }
         }
